@@ -11,7 +11,6 @@ import (
 	"os"
 	"os/exec"
 	"path/filepath"
-	"regexp"
 	"sort"
 	"strings"
 	"sync"
@@ -79,9 +78,53 @@ func randTree(rng *rand.Rand, root string) []string {
 
 // proc is a running `taskctl -d watch` process whose output is collected.
 type proc struct {
-	cmd *exec.Cmd
-	mu  sync.Mutex
-	out bytes.Buffer
+	cmd   *exec.Cmd
+	mu    sync.Mutex
+	out   bytes.Buffer
+	trace string // directory the process writes its verification trace to (VERIF_TRACE)
+}
+
+// wev is an event the watcher recorded through its verification hooks.
+type wev struct {
+	E    string `json:"e"`
+	W    string `json:"w"`
+	Path string `json:"path"`
+	Op   string `json:"op"`
+}
+
+// events reads what the watcher has recorded so far (hooks in internal/watch: start of Run, every
+// path handed to the file system watcher, every event received from it).
+func (p *proc) events() []wev {
+	var out []wev
+	files, _ := filepath.Glob(filepath.Join(p.trace, "trace-*.ndjson"))
+	for _, f := range files {
+		b, _ := ioutil.ReadFile(f)
+		for _, l := range bytes.Split(b, []byte("\n")) {
+			var e wev
+			if len(l) > 0 && json.Unmarshal(l, &e) == nil && strings.HasPrefix(e.E, "watch-") {
+				out = append(out, e)
+			}
+		}
+	}
+	return out
+}
+func (p *proc) started(w string) bool {
+	for _, e := range p.events() {
+		if e.E == "watch-start" && e.W == w {
+			return true
+		}
+	}
+	return false
+}
+func (p *proc) traceSize() int {
+	n := 0
+	files, _ := filepath.Glob(filepath.Join(p.trace, "trace-*.ndjson"))
+	for _, f := range files {
+		if fi, err := os.Stat(f); err == nil {
+			n += int(fi.Size())
+		}
+	}
+	return n
 }
 
 func (p *proc) Write(b []byte) (int, error) {
@@ -103,7 +146,8 @@ func startWatch(env *core.Env, dir, cfg, home string, more ...string) (*proc, er
 			p.cmd.Env = append(p.cmd.Env, kv)
 		}
 	}
-	p.cmd.Env = append(p.cmd.Env, "HOME="+home)
+	p.trace = env.Sub("wtrace")
+	p.cmd.Env = append(p.cmd.Env, "HOME="+home, "VERIF_TRACE="+p.trace)
 	p.cmd.Stdout, p.cmd.Stderr = p, p
 	p.cmd.SysProcAttr = &syscall.SysProcAttr{Setpgid: true}
 	return p, p.cmd.Start()
@@ -115,15 +159,12 @@ func (p *proc) stop() {
 	}
 }
 
-var reWaiting = regexp.MustCompile(`is waiting for events in ([^"\n]*)"`)
-var reEvent = regexp.MustCompile(`msg="(\w+): event \\"([A-Z|]+)\\" in file \\"([^"\\]*)\\"`)
-
 // waitStable waits until the process output has not grown for d (or limit passed).
 func (p *proc) waitStable(d, limit time.Duration) {
 	end := time.Now().Add(limit)
 	last, lastAt := -1, time.Now()
 	for time.Now().Before(end) {
-		n := len(p.text())
+		n := len(p.text()) + p.traceSize()
 		if n != last {
 			last, lastAt = n, time.Now()
 		} else if n > 0 && time.Since(lastAt) > d {
@@ -182,7 +223,7 @@ func Check(env *core.Env, rep *core.Report) *core.Result {
 	}
 	nMatch := len(rows)
 
-	// (2) selection: random trees x pattern sets, observed through the watcher's debug log
+	// (2) selection: random trees x pattern sets, observed through the watcher's verification hooks (watch-path events)
 	nSel := 40
 	if thorough {
 		nSel = 600
@@ -250,7 +291,7 @@ func Check(env *core.Env, rep *core.Report) *core.Result {
 			add("select:crash", "the watcher crashed while selecting paths", map[string]interface{}{"include": inc, "exclude": exc, "paths": paths, "output": tail(txt, 800)})
 			return
 		}
-		if !strings.Contains(txt, "starting watcher") {
+		if !p.started("w") {
 			selOut[i].err = "watcher did not start: " + tail(txt, 300)
 			return
 		}
@@ -261,8 +302,11 @@ func Check(env *core.Env, rep *core.Report) *core.Result {
 			ps = append(ps, segs(q))
 		}
 		obs := []int{}
-		for _, m := range reWaiting.FindAllStringSubmatch(strings.ReplaceAll(txt, "\\\"", "\""), -1) {
-			q := strings.TrimSpace(m[1])
+		for _, e := range p.events() {
+			if e.E != "watch-path" || e.W != "w" {
+				continue
+			}
+			q := e.Path
 			if k, ok := idx[q]; ok {
 				obs = append(obs, k)
 			} else {
@@ -363,7 +407,12 @@ func Check(env *core.Env, rep *core.Report) *core.Result {
 		}
 		defer p.stop()
 		p.waitStable(400*time.Millisecond, 8*time.Second)
-		if !strings.Contains(p.text(), "starting watcher") {
+		if !p.started("w") {
+			if len(p.events()) > 0 {
+				// the command serves some watcher, but not every one named on the command line
+				add("events:watcher-not-started", fmt.Sprintf("taskctl watch w %s: watcher w was never started (recorded: %v)", strings.Join(moreWatchers, " "), p.events()), map[string]interface{}{"yaml": y.String(), "output": tail(p.text(), 1200)})
+				return
+			}
 			evOut[i].err = "watcher did not start: " + tail(p.text(), 300)
 			return
 		}
@@ -423,12 +472,13 @@ func Check(env *core.Env, rep *core.Report) *core.Result {
 			return
 		}
 		delivered := []rowT{}
-		for _, m := range reEvent.FindAllStringSubmatch(txt, -1) {
-			if m[1] != "w" {
+		evs := p.events()
+		for _, e := range evs {
+			if e.E != "watch-event" || e.W != "w" {
 				continue // the second watcher's events are judged below
 			}
-			for _, t := range strings.Split(m[2], "|") {
-				delivered = append(delivered, rowT{"t": strings.ToLower(t), "p": m[3]})
+			for _, t := range strings.Split(e.Op, "|") {
+				delivered = append(delivered, rowT{"t": strings.ToLower(t), "p": e.Path})
 			}
 		}
 		runs := []rowT{}
@@ -459,7 +509,11 @@ func Check(env *core.Env, rep *core.Report) *core.Result {
 		if twoWatchers {
 			// the second watcher is served as well: it reports what it waits on, and a write to the
 			// file it selects runs its task
-			if !strings.Contains(txt, `watcher \"w2\" is waiting for events in other.dat`) {
+			second := false
+			for _, e := range evs {
+				second = second || (e.E == "watch-path" && e.W == "w2" && e.Path == "other.dat")
+			}
+			if !second {
 				add("events:second-watcher-not-started", "taskctl watch w w2: the second watcher never reported the paths it waits on", map[string]interface{}{"output": tail(txt, 1500)})
 				return
 			}
@@ -575,11 +629,11 @@ func Check(env *core.Env, rep *core.Report) *core.Result {
 		"states": dist, "transitions": gen, "tlc_runs": nruns,
 		"traces_validated_against_impl": nSelRows + nEvRows, "evaluations": len(rows), "distinct_nontrivial": nSelRows + nEvRows,
 		"calibration_rows": nMatch, "selection_rows": nSelRows, "event_scenarios": nEvRows,
-		"rule":       "calibration: random (pattern, path) pairs over segments {a, b, ab, *, ?, a*, *b, ?b, **} judged equal between Glob.tla and doublestar.PathMatch; selection: random trees (<=3 levels, <=12 files) x 1..2 include and 0..1 exclude patterns, the paths the real watcher reports waiting on must equal Selected; events: 2..6 file operations (write, chmod, remove, rename) on selected, excluded and unrelated files with a random subset of subscribed event types, deliveries taken from the watcher's own debug log, task runs from the task's log; all rows judged by TLC (WatchTable.tla)",
+		"rule":       "calibration: random (pattern, path) pairs over segments {a, b, ab, *, ?, a*, *b, ?b, **} judged equal between Glob.tla and doublestar.PathMatch; selection: random trees (<=3 levels, <=12 files) x 1..2 include and 0..1 exclude patterns, the paths the real watcher reports waiting on must equal Selected; events: 2..6 file operations (write, chmod, remove, rename) on selected, excluded and unrelated files with a random subset of subscribed event types, deliveries taken from the watcher's hook events (watch-event, recorded before the subscription filter), task runs from the task's log; all rows judged by TLC (WatchTable.tla)",
 		"model_runs": modelRuns, "binding_selftest": selftest, "samples": samples.List(), "checker_cmds": cmds,
 	}
 	return &core.Result{Level: "model_checking", Coverage: cov, Assumptions: []string{
-		"inotify semantics are taken from the events the watcher's own fsnotify instance delivers (debug log), not re-modelled",
+		"inotify semantics are taken from the events the watcher's own fsnotify instance delivers (hook events), not re-modelled",
 		"operations stay away from non-selected children of selected directories; a removed or renamed file is not touched again",
 		"the loop handles one event per second: scenarios wait (operations + 2) x 1.1 s and for a quiet log before judging",
 	}}
